@@ -63,7 +63,7 @@ PROPERTIES = {
                "free-symbol test; section rebuilders keep every assignment; memo invalidation; parenthesised location/scale templates. "
                "NOT decided: semantic equivalence of the if-flattening / alias rewrites."),
     "C03": dict(
-        specs=[S("D1"), S("A1-cond"), S("A4M"), S("FRESHCTX"), S("INDICATOR"), S("VOCAB", r"get_const_moment|get_support|dispatch"), S("TRANSFORMTERM"), S("MGF")],
+        specs=[S("D1"), S("A1-cond"), S("A4M"), S("FRESHCTX"), S("INDICATOR"), S("VOCAB", r"get_const_moment|get_support|dispatch"), S("TRANSFORMTERM"), S("MGF"), S("FUNCPLACEHOLDER")],
         clause="indicator polynomials of And/Or/Not/True/False equal their boolean meaning on all rows; composite conditions recurse into every child; the three "
                "get_moment bodies share the guarded-assignment shape. NOT decided: Atom's Lagrange indicator, power reduction, closure, coefficients."),
     "C04": dict(
@@ -119,7 +119,7 @@ PROPERTIES = {
                "value enumeration; simulator dispatch / first-match branching / guard stuttering / guarded assignment have the assumed shape. "
                "NOT decided: the distribution of simulated states."),
     "C13": dict(
-        specs=[S("MGF"), S("VOCAB"), S("A1-assign", r"FunctionalAssignment|DistAssignment"), S("TRANSFORMTERM"), S("SECTIONTABLES"), S("FRESHCTX"), S("MGFDOMAIN"), S("STATE", r"program/assignment|classmutable|modstate"), S("LRU", r"program/assignment|program/distribution"), S("CFMGF"), S("A1-dist", r"\.mgf|\.cf|mgf_exists_at")],
+        specs=[S("MGF"), S("VOCAB"), S("A1-assign", r"FunctionalAssignment|DistAssignment"), S("TRANSFORMTERM"), S("SECTIONTABLES"), S("FRESHCTX"), S("MGFDOMAIN"), S("STATE", r"program/assignment|classmutable|modstate"), S("LRU", r"program/assignment|program/distribution"), S("CFMGF"), S("A1-dist", r"\.mgf|\.cf|mgf_exists_at"), S("FUNCPLACEHOLDER")],
         clause="mgf is used only behind a raising existence test at the order used; function-name literals are in the grammar vocabulary, dispatchers are total, trig/exp "
                "mixing is refused; rounding happens in one funnel. NOT decided: the transform formulas."),
     "C15": dict(
@@ -166,19 +166,27 @@ CLAUSES = {'C01': '(i) exactness-flag plumbing: every approximating call clears,
  'C03': 'indicator polynomials of And/Or/Not/True/False equal their boolean meaning on all rows; composite conditions recurse into every child; the three get_moment bodi'
         'es share the guarded-assignment shape (branch i pairs probabilities[i] with polynomials[i]**k); Atom.to_arithm is the Lagrange product with the outside-type cas'
         'e; power reduction cases are guarded by facts that imply them; the Vandermonde system is oriented consistently; every backward substitution starts from a fresh '
-        'context. mgf uses are dominated by a raising existence test at the order used; the ordered value tuple of a finite type holds the values themselves. NOT decided'
-        ': closure of the system, coefficients.',
+        'context. mgf uses are dominated by a raising existence test at the order used; the ordered value tuple of a finite type holds the values themselves. The postpon'
+        'ed value of a functional assignment has a symbol of its own. NOT decided: closure of the system, coefficients.',
+ 'C04': 'the general solution of the characteristic-root solver has the m terms C*n**i*r**n (i < m) for every non-zero root of multiplicity m; its constants are fitted o'
+        'n (ansatz at n, n-th iterate) pairs taken from max(1, multiplicity of the root 0) on (the ansatz leaves the root 0 out); the summation solver is the geometric-s'
+        'um identity x(n) = c**(n-s) x(s) + sum_{k=s}^{n-1} c**(n-k-1) f(k) (exponents, bounds and start index compared as rational functions) and is chosen only for acy'
+        "clic systems; every root source is complete (all_roots / intervals(all=True) on square-free factors with the factor's multiplicity / roots() only below degree 5"
+        ') and an approximated root clears the exactness flag that both solvers forward. Hand-written memo tables are keyed by every option / parameter the cached root c'
+        'omputation receives. NOT decided: that a closed form equals A^n v (values), the number of listed special cases, agreement of the two strategies.',
  'C05': 'discrete supports enumerate the values the moment/sampler sides use; intervals are refused; only non-failed numeric sets become types; the start state covers th'
         'e whole initial block; the default is in the value set whenever it is another variable (truth table over the guard tests); implied-by-guard answers are sound; n'
         'o memoised support set is extended by a caller. The symbols read before assignment accumulate over the statements of the body; no sweep clears has_changed after'
         ' the updates of the same pass. NOT decided: that the fixed point covers all reachable values.',
  'C06': 'no truncation of a rational kernel on the way to exponent vectors (the integer kernel uses integer row operations only); one multiplicity row per factor (no sha'
         'red row object); exponentials are abstracted only behind raising checks; bases and abstraction symbols stay aligned; the eliminated symbols are exactly the lex '
-        'prefix that is filtered; the saturation through inverse symbols is reachable; goal closed forms are stored under the identifier of their own kind. NOT decided: '
-        'that reported polynomials vanish on the sequences.',
+        'prefix that is filtered; the saturation through inverse symbols is reachable; goal closed forms are stored under the identifier of their own kind. Lattice vecto'
+        'rs are turned into binomials unscaled; base**(C*n) is read as (base**C)**n; the integer-kernel elimination covers the whole left block; an inverse symbol is cre'
+        'ated once per symbol; solver tables live as long as their program. NOT decided: that reported polynomials vanish on the sequences.',
  'C07': 'both groebner() calls compute elimination ideals (generator prefix == filtered symbols, lex order); the trivial-lattice shortcut is entered only for all-rationa'
         'l bases; the saturation of the lattice ideal is reachable; the Gram-Schmidt norm is compared with the Faccin bound in the same dimension; the LLL loop returns o'
-        'nly what passed the exact membership test. NOT decided: completeness of the exponent lattice.',
+        'nly what passed the exact membership test. Lattice vectors are turned into binomials unscaled; base**(C*n) is read as (base**C)**n; the integer-kernel eliminati'
+        'on covers the whole left block; an inverse symbol is created once per symbol. NOT decided: completeness of the exponent lattice.',
  'C08': "every parameter field is consulted by subs/free symbols/sampler/printer/moment/cf/mgf; scipy sampler arguments denote the moment side's law; discrete enumeratio"
         'ns agree; float parameters become exact rationals; cf(t) == mgf(i t) as rational functions. Holes of the draw-rewriting templates are parenthesised or atomic. N'
         'OT decided: any moment formula.',
@@ -189,29 +197,34 @@ CLAUSES = {'C01': '(i) exactness-flag plumbing: every approximating call clears,
         ', loop ranges included); Markov bounds are E(M**k)/a**k for every requested order and the lower bound is (m1-a)**2/(m2-2*a*m1+a**2); cumulant / central goals us'
         "e their own conversion, report the entry of the goal's order and request the raw moments up to it; their after-loop arms condition on termination and take the l"
         'imit; goal kinds are stored under their own identifiers. The limit n->oo is taken after raw moments were combined; tail-bound lists are mapped over by the limit'
-        " helper. NOT decided: the Gram-Charlier / Cornish-Fisher expansions and the Bell / Hermite polynomials, validity of the bounds' assumptions, any reported value.",
+        ' helper. Gram-Charlier coefficients are complete Bell polynomials of the cumulants. NOT decided: the Gram-Charlier / Cornish-Fisher expansions and the Bell / He'
+        "rmite polynomials, validity of the bounds' assumptions, any reported value.",
  'C12': "operator tables of analysis and simulator agree; boolean evaluation equals the indicator; samplers use the moment side's parameter convention and value enumerat"
         'ion; simulator dispatch / first-match branching / guard stuttering / guarded assignment have the assumed shape. The sampler of a categorical keeps one weight pe'
         'r category; what decides whether the loop body runs is not carried over from the previous sample run. NOT decided: the distribution of simulated states.',
  'C13': "mgf is used only behind a raising existence test at the order used, and the test encodes the family's domain; function-name literals are in the grammar vocabula"
         'ry, dispatchers (if-chain or table) are total, trig/exp mixing is refused; the transform enters differentiated identity-power times, a raw moment standing in fo'
         'r the derivative at 0 carries I**a (cf) / no unit (mgf); rounding happens in one funnel; no process-wide store of functional moments outlives the exact/rounded '
-        'mode. NOT decided: the transform formulas.',
+        'mode. The postponed value of a functional assignment is represented by a symbol different from the assigned variable; the tables of unconditioned facts are purg'
+        'ed on every re-assignment and record a copy of a draw as a reference, not as a draw. NOT decided: the transform formulas.',
  'C15': 'CPT rows are written only after the row-sum check, in default->table->entries order with a final completeness check; generated code is in topological order, num'
         'bers values by domain position of their own variable; names are sanitised to grammar atoms. Sanitised names that the CAS reads as constants are altered. NOT dec'
         'ided: numeric query answers.',
  'C16': 'the rational kernel is not truncated to integers; one row per factor; the trivial-lattice shortcut needs all bases rational and pairwise coprimality; norm and b'
-        'ound are compared in the same dimension; the LLL loop returns only what passed the exact membership test. NOT decided: independence, completeness.',
+        'ound are compared in the same dimension; the LLL loop returns only what passed the exact membership test. The integer-kernel elimination covers the whole left b'
+        'lock (build width = elimination range = cut offset). NOT decided: independence, completeness.',
  'C17': 'options are written only by the CLI setter and read at call time; settings<->options<->setter census; every root source is complete and approximations clear the'
         ' flag; cond2arithm keeps every assignment; categorical expansion keeps index/value/probability aligned. Hand-written memo tables that outlive a call are keyed b'
         'y every strategy option their value is computed with; methods called on freshly constructed repository objects exist (code behind non-default options); a transl'
-        'ation that yields several statements is spliced, not appended. NOT decided: equality of closed forms across settings.',
+        'ation that yields several statements is spliced, not appended. Calls that resolve to one repository function fit its signature. NOT decided: equality of closed '
+        'forms across settings.',
  'C18': 'the safety half only (`whatever Polar refuses, it refuses with an error; a refusal never takes the form of a wrong or partial result`): no exception handler swa'
         'llows an exception (each re-raises on every path or is a reviewed complete fallback); no function returns a value on some paths and ends without one on others u'
         'nless its callers test for the missing value; section rebuilders and cond2arithm raise for what they cannot convert instead of dropping it; dispatchers on opera'
         'tors / function names are total or end in raise; exponentials and mgf uses sit behind raising checks. A method called on a freshly constructed repository object'
-        ' is defined in its class hierarchy (an AttributeError is not a refusal). NOT decided: the liveness half (that every loop within the documented restrictions is a'
-        'ccepted and yields a closed form).',
+        ' is defined in its class hierarchy (an AttributeError is not a refusal). The dependency graph keeps the strongest kind registered for an edge; the pass order le'
+        'aves complete program information; calls fit the signatures they resolve to. NOT decided: the liveness half (that every loop within the documented restrictions '
+        'is accepted and yields a closed form).',
  'C19': 'parser templates are precedence-safe; arithmetic is re-stringified token by token by the transformer Lark is built with; probability vectors (all constants, als'
         'o after a symbolic one) and assigned names are validated; every float occurring in a coefficient / probability / parameter becomes the rational of its decimal t'
         'ext (depth of the conversion is classified); simultaneous assignment writes no target before all right-hand sides are in temporaries. NOT decided: equality of t'
@@ -220,7 +233,7 @@ CLAUSES = {'C01': '(i) exactness-flag plumbing: every approximating call clears,
         'ed command line is never written by an action; memoised callables read nothing the analysis phase mutates and hand no mutable container to a caller that writes '
         'into it; order-sensitive consumers of sets are reviewed (violation only with evidence of seed-dependent element hashes); randomness only in the simulator; the c'
         'lass flag is refreshed by every normalisation; solver tables and builder contexts are per program. Hand-written memo tables on shared objects are keyed by every'
-        ' option they depend on. NOT decided: equality of results across histories / hash seeds.'}
+        ' option they depend on. Get-or-create methods create a fresh name only when the table has none. NOT decided: equality of results across histories / hash seeds.'}
 TECHNIQUES = {'C01': 'static dataflow of exactness flags (def-use closure over (value, is_exact) pairs, definitions reaching each return), lossy-call census, CFG typestate parse->nor'
         'malize->consume over CLI actions; plus the rules of C02/C03/C19 as shared necessary conditions',
  'C02': 'typestate over normalize_program (derived pass requirements/effects on all settings paths), write-back analysis of subs methods, CFG control dependence of const'
